@@ -1039,3 +1039,76 @@ package geom
 //@   loop 2:
 //@     invariant len(ends) == len(g.endss[i]) && fresh(ends) && offset > 0
 //@     invariant forall j int :: 0 <= j && j < idx ==> ends[j] == g.endss[i][j] - offset
+
+// ---------------------------------------------------------------------------
+// C02: Reverse reverses the vertex order of every part in place and nothing else
+
+// coordinate p of the range [offset, end) ends up holding what coordinate n-1-p held (all ordinates), and nothing
+// outside the range is written. Stated per cell x of coordinate block p: it holds what the cell at the same position
+// of the mirrored block held
+//@ func reverse1
+//@   lemmas mulCancel, mulCancel2, mulNonneg, mulMono
+//@   requires stride >= 0 && 0 <= offset && offset <= end && end <= len(flatCoords) && whole(end - offset, stride)
+//@   ensures [reversed] stride > 0 ==> forall p, x int :: {mul(p, stride), flatCoords[x]} 0 <= p && p < cnt(end - offset, stride) && offset + mul(p, stride) <= x && x < offset + mul(p, stride) + stride ==> flatCoords[x] == old(flatCoords[x + (end - offset - stride - 2 * mul(p, stride))])
+//@   ensures [outside] forall x int :: {flatCoords[x]} 0 <= x && x < len(flatCoords) && (x < offset || x >= end || stride == 0) ==> flatCoords[x] == old(flatCoords[x])
+//@   modifies flatCoords[offset:end]
+//@   at loop1.body: assert j - i == mul(cnt(end - offset, stride) - 2 * m - 1, stride) && mul(1, stride) == stride && mul(0, stride) == 0
+//@   at loop1.body: assert i == j || i + stride <= j
+//@   at loop1.body: assert mul(cnt(end - offset, stride) - 1 - m, stride) == mul(cnt(end - offset, stride), stride) - mul(m, stride) - stride
+//@   loop 1:
+//@     ghost m int = 0 step m + 1
+//@     invariant stride > 0 && m >= 0 && i == offset + mul(m, stride) + stride && j == end - mul(m, stride) && end - offset == mul(cnt(end - offset, stride), stride) && 2 * m <= cnt(end - offset, stride) + 1 && mul(m + 1, stride) == mul(m, stride) + stride
+//@     invariant [done] forall p, x int :: {mul(p, stride), flatCoords[x]} ((0 <= p && p < m) || (cnt(end - offset, stride) - m <= p && p < cnt(end - offset, stride))) && 0 <= p && p < cnt(end - offset, stride) && offset + mul(p, stride) <= x && x < offset + mul(p, stride) + stride ==> flatCoords[x] == old(flatCoords[x + (end - offset - stride - 2 * mul(p, stride))])
+//@     invariant [middle] forall x int :: {flatCoords[x]} offset + mul(m, stride) <= x && x < end - mul(m, stride) ==> flatCoords[x] == old(flatCoords[x])
+//@     invariant [outside] forall x int :: {flatCoords[x]} 0 <= x && x < len(flatCoords) && (x < offset || x >= end) ==> flatCoords[x] == old(flatCoords[x])
+//@   loop 2:
+//@     ghost h1 heap[float64] = heapfor("float64") step h1
+//@     invariant 0 <= idx && idx <= stride && (i == j || i + stride <= j) && offset + stride <= i && j <= end && end <= len(flatCoords)
+//@     invariant i == offset + mul(m, stride) + stride && j == end - mul(m, stride) && m >= 0 && stride > 0 && end - offset == mul(cnt(end - offset, stride), stride) && mul(cnt(end - offset, stride) - 1 - m, stride) == mul(cnt(end - offset, stride), stride) - mul(m, stride) - stride
+//@     invariant [cells] forall x int :: {flatCoords[x]} 0 <= x && x < len(flatCoords) ==> flatCoords[x] == (i - stride <= x && x < i - stride + idx ? rdin(h1, flatCoords, x + (j - i)) : (j - stride <= x && x < j - stride + idx ? rdin(h1, flatCoords, x - (j - i)) : rdin(h1, flatCoords, x)))
+//@     invariant [done-h1] forall p, x int :: {mul(p, stride), rdin(h1, flatCoords, x)} ((0 <= p && p < m) || (cnt(end - offset, stride) - m <= p && p < cnt(end - offset, stride))) && 0 <= p && p < cnt(end - offset, stride) && offset + mul(p, stride) <= x && x < offset + mul(p, stride) + stride ==> rdin(h1, flatCoords, x) == old(flatCoords[x + (end - offset - stride - 2 * mul(p, stride))])
+//@     invariant [middle-h1] forall x int :: {rdin(h1, flatCoords, x)} offset + mul(m, stride) <= x && x < end - mul(m, stride) ==> rdin(h1, flatCoords, x) == old(flatCoords[x])
+//@     invariant [outside-h1] forall x int :: {rdin(h1, flatCoords, x)} 0 <= x && x < len(flatCoords) && (x < offset || x >= end) ==> rdin(h1, flatCoords, x) == old(flatCoords[x])
+
+// every part [start_r, ends[r]) is handed to reverse1 with its own bounds; nothing outside [offset, last end) is
+// written. (That each part ends up reversed in itself follows from reverse1's contract part by part; the combined
+// statement over all parts is not discharged here.)
+//@ func reverse2
+//@   lemmas mulCancel, mulCancel2, mulNonneg, mulMono
+//@   requires stride >= 0 && 0 <= offset && offset <= len(flatCoords)
+//@   requires forall r int :: 0 <= r && r < len(ends) ==> (r == 0 ? offset : ends[r-1]) <= ends[r] && ends[r] <= len(flatCoords) && whole(ends[r] - (r == 0 ? offset : ends[r-1]), stride)
+//@   ensures [outside] forall x int :: {flatCoords[x]} 0 <= x && x < len(flatCoords) && (x < offset || len(ends) == 0 || x >= ends[len(ends)-1] || stride == 0) ==> flatCoords[x] == old(flatCoords[x])
+//@   modifies flatCoords[offset:len(flatCoords)]
+//@   loop 1:
+//@     invariant offset == (idx == 0 ? offset0 : ends[idx-1]) && offset0 <= offset && offset <= len(flatCoords)
+//@     invariant [rest] forall x int :: {flatCoords[x]} 0 <= x && x < len(flatCoords) && (x < offset0 || x >= offset || stride == 0) ==> flatCoords[x] == old(flatCoords[x])
+
+// a line string or ring: coordinate p ends up holding what coordinate n-1-p held
+//@ func geom1.Reverse
+//@   lemmas mulCancel, mulCancel2, mulNonneg, mulMono
+//@   requires wf1(g)
+//@   ensures g.stride > 0 ==> forall p, x int :: {mul(p, g.stride), g.flatCoords[x]} 0 <= p && p < cnt(len(g.flatCoords), g.stride) && mul(p, g.stride) <= x && x < mul(p, g.stride) + g.stride ==> g.flatCoords[x] == old(g.flatCoords[x + (len(g.flatCoords) - g.stride - 2 * mul(p, g.stride))])
+//@   ensures g.flatCoords == old(g.flatCoords) && g.layout == old(g.layout) && g.stride == old(g.stride) && g.srid == old(g.srid) && wf1(g)
+//@   modifies g.flatCoords[0:len(g.flatCoords)]
+
+//@ func geom2.Reverse
+//@   requires wf2(g)
+//@   ensures g.flatCoords == old(g.flatCoords) && g.ends == old(g.ends) && g.layout == old(g.layout) && g.stride == old(g.stride) && wf2(g)
+//@   modifies g.flatCoords[0:len(g.flatCoords)]
+
+//@ func reverse3
+//@   lemmas mulCancel, mulCancel2, mulNonneg, mulMono
+//@   requires stride >= 0 && offset == 0 && endssOK(endss, len(flatCoords), stride)
+//@   ensures stride == 0 ==> forall x int :: {flatCoords[x]} 0 <= x && x < len(flatCoords) ==> flatCoords[x] == old(flatCoords[x])
+//@   modifies flatCoords[0:len(flatCoords)]
+//@   loop 1:
+//@     ghost lastp int = 0 - 1 step (len(endss[idx-1]) > 0 ? idx - 1 : lastp)
+//@     invariant 0 - 1 <= lastp && lastp < idx && 0 <= offset && offset <= len(flatCoords)
+//@     invariant lastp == 0 - 1 ==> offset == 0 && emptyBetween(endss, 0 - 1, idx)
+//@     invariant lastp >= 0 ==> len(endss[lastp]) > 0 && offset == endss[lastp][len(endss[lastp])-1] && emptyBetween(endss, lastp, idx)
+//@     invariant stride == 0 ==> forall x int :: {flatCoords[x]} 0 <= x && x < len(flatCoords) ==> flatCoords[x] == old(flatCoords[x])
+
+//@ func geom3.Reverse
+//@   requires wf3(g)
+//@   ensures g.flatCoords == old(g.flatCoords) && g.endss == old(g.endss) && g.layout == old(g.layout) && g.stride == old(g.stride) && wf3(g)
+//@   modifies g.flatCoords[0:len(g.flatCoords)]
